@@ -17,6 +17,7 @@
    adaptation field incl. its length byte), n (payload bytes), kind, ver]. *)
 EXTENDS Integers, Sequences, FiniteSets, TLC, Json
 CONSTANTS PIDS,        \* explicit PIDs callers use
+          RESV,        \* explicit PIDs callers try that are reserved for PSI/SI (below 0x20) or wider than 13 bits: refused
           Period,      \* tables retransmit period
           MaxOps,      \* history bound
           Dev,         \* deviations present
@@ -106,6 +107,16 @@ Add(p, big) ==
              /\ bigs' = IF big THEN bigs \cup {np} ELSE bigs \ {np}
              /\ changedSince' = TRUE
              /\ Quiet(op, "nil")
+  /\ UNCHANGED <<patCC, pmtCC, patVer, pmtVer, pmDirty, pcr, rtx, sinceAuto>>
+
+\* an explicit PID below 0x20 (ISO 13818-1 table 2-3: PAT, CAT, TSDT, reserved; EN 300 468 table 1: NIT, SDT, EIT, ... - the Demuxer
+\* reads those as PSI whatever a PMT says) or wider than 13 bits is refused and nothing changes
+\* deviation "ReservedPidAccepted": it is taken like any other PID
+AddReserved(p) ==
+  /\ ~HasDev("ReservedPidAccepted")
+  /\ nops < MaxOps /\ nops' = nops + 1
+  /\ UNCHANGED <<streams, escc, pmtDirty, nextPid, changedSince, nauto, bigs>>
+  /\ Quiet([op |-> "add", pid |-> p, st |-> 27, dk |-> "none"], "pidinvalid")
   /\ UNCHANGED <<patCC, pmtCC, patVer, pmtVer, pmDirty, pcr, rtx, sinceAuto>>
 
 Remove(p) ==
@@ -235,7 +246,8 @@ WritePacket(k) ==
   /\ UNCHANGED <<streams, escc, patCC, pmtCC, patVer, pmtVer, pmDirty, pmtDirty, pcr, nextPid, rtx, nauto, changedSince, sinceAuto, bigs>>
 
 Next ==
-  \/ \E p \in PIDS \cup {0}, big \in BIGS : Add(p, big)
+  \/ \E p \in PIDS \cup {0} \cup (IF HasDev("ReservedPidAccepted") THEN RESV ELSE {}), big \in BIGS : Add(p, big)
+  \/ \E p \in RESV : AddReserved(p)
   \/ \E p \in PIDS : Remove(p)
   \/ \E p \in PIDS \cup {999} : SetPCR(p)
   \/ WriteTables
